@@ -9,6 +9,7 @@ from ..linform import Lin, lin_of, NonLinear, atom, max0, minof, maxof, show_ter
 from ..lines import get_analysis, load_data, DATA
 from ..pdfx import load_template
 from ..src import AnalysisError
+from .c08 import status_table
 
 BLANK = (None, 0, 0.0, False, '')
 
@@ -199,6 +200,24 @@ def compare(d, ins, exp, zero, alts=(), floor_ops=None):
     return bad
 
 
+def compare_status_table(cat, year, d, tab, enum):
+    """per filing status: every value the definition can return is the amount printed for that status.
+    -> list of mismatches, or None when the definition is not a per-status constant (not armed)"""
+    from ..lineabs import LineEval, InputsTok, ValuesTok
+    from ..formx import field_closure
+    bad = []
+    for m, want in sorted(tab.items()):
+        assume = {'i:1040.filing_status': enum.member(m), 'v:1040.filing_status': enum.member(m)}
+        paths = LineEval(cat, year, d.fr, assume=assume).run(field_closure(d.rec), [d.rec, InputsTok(d.fr.rec), ValuesTok(d.fr.rec)])
+        vals = [p.outcome.value for p in paths if p.outcome.kind == 'ret']
+        if not vals or not all(isinstance(v, (int, float)) and not isinstance(v, bool) for v in vals):
+            return None
+        for v in vals:
+            if float(v) != float(want):
+                bad.append(f'gives {float(v):g} for {m} where the box prints {want:g}')
+    return bad
+
+
 def compare_nextmult(d, exp):
     """a - b rounded up to the next multiple of the step, 0 when not positive.  The instruction and any definition
     built from the difference with floor / ceil / floor-division / comparisons are step functions of a - b whose
@@ -247,6 +266,9 @@ def check(tree, rep, tier='quick', seed=0):
     kinds = {}
     for y in cat.years:
         zero = zero_lines(an, y)
+        f1040 = cat.find(y, '1040')
+        fs = f1040.input_map().get('filing_status') if f1040 else None
+        status_enum = fs.attrs['enum'] if fs is not None else None
         for fr in cat.forms(y):
             if fr.rec is None:
                 continue
@@ -282,6 +304,18 @@ def check(tree, rep, tier='quick', seed=0):
             for line, text, where in sources:
                 ins = parse(text)
                 key = f'{y}/{fr.name}.{line}'
+                if ins is None and re.search(r'Enter the (?:following )?amount (?:shown below )?for your filing status', text):
+                    # a table "filing status - amount" printed in the box: the line must yield, for each status, the amount printed for it
+                    tab = status_table(text, list(status_enum.members)) if status_enum is not None else None
+                    d = an.defs.get((y, fr.name, line))
+                    if tab and d is not None:
+                        bad = compare_status_table(cat, y, d, tab, status_enum)
+                        if bad is not None:
+                            n_armed += 1
+                            kinds['statustable'] = kinds.get('statustable', 0) + 1
+                            rep.ob('R2', key, not bad, f'{y} {fr.name} line {line}: the form says "{_short(text)}" but the definition {"; ".join(bad[:2])}', d.where,
+                                   sample={'line': key, 'instruction': _short(text), 'parsed': 'status table ' + repr(tab)})
+                            continue
                 if ins is None:
                     n_prose += 1
                     continue
